@@ -57,6 +57,7 @@ def check(run: Run, prog: Program, model: Model, tier: str) -> None:
         "inclusion on concrete values is not decided."
         " An optional key dropped from a relaxed table and an exact element list that a carried max_len re-opens in the validator are widenings too.")
     run.explanation += ' An empty closed table accepts only {}: W2-DICT reports keys added to it unless the pre-validation of that table reports undeclared keys.'
+    run.explanation += ' PRE-VALIDATION-FORMS: for every element-list shape (the empty list included) and the typed form, SubstitutorValidator.visit_list can report every error kind Validator.visit_list reports.'
     run.rule_text = "obligations per (visit method, prop-set/shape) and mechanism; non-trivial = premises derived on interpreter paths"
     from ..entry import entry_transparent
     entry_transparent(run, prog, model, "validate", "VALIDATE-ENTRY")
@@ -222,6 +223,9 @@ def check(run: Run, prog: Program, model: Model, tier: str) -> None:
         else:
             run.holds("W3-LIST", construct, fl.loc, f"{len(rets)} return paths: every position pinned, length props carried", nontrivial=True)
     run.floor("W3-LIST", 30)
+    # "validated first" is only worth something if the validator the substitutor runs is as strict as the real one on lists
+    from .c02 import prevalidation_forms
+    prevalidation_forms(run, prog, model, tier, "PRE-VALIDATION-FORMS")
     # the substituted list is an EXACT element list next to the carried length props: it narrows only if the validator
     # still reports every position past the pinned ones (a max_len that "leaves room" re-opens the list)
     from ..visits import list_shapes
@@ -317,4 +321,11 @@ MUTANTS += [
     {"name": "float validator returns right after a matching pinned value (bounds no longer enforced)", "rule": "W1-SCALAR",
      "edits": [("d42/validation/_validator.py", "                if not is_equal:\n                    return result.add_error(ValueValidationError(path, value, schema.props.value))\n",
                 "                if not is_equal:\n                    return result.add_error(ValueValidationError(path, value, schema.props.value))\n            return result\n")]},
+]
+
+# round 8: the seeded changes that were missed on first contact, replayed against the current tree
+MUTANTS += [
+    {"name": 'seeded C05-O', "rule": 'PRE-VALIDATION-FORMS',
+     "edits": [('d42/substitution/_validator.py', '                return result.add_error(\n                    MaxLengthValidationError(path, value, schema.props.max_len))\n\n        if (schema.props.type is Nil) and (schema.props.elements is Nil):\n            return result\n\n        if schema.props.type is not Nil:\n            type_schema = schema.props.type\n            for index, elem in enumerate(value):\n', '                return result.add_error(\n                    MaxLengthValidationError(path, value, schema.props.max_len))\n\n        if schema.props.type is not Nil:\n            type_schema = schema.props.type\n            for index, elem in enumerate(value):\n'),
+               ('d42/substitution/_validator.py', '                res = type_schema.__accept__(self, value=elem, path=nested_path, **kwargs)\n                result.add_errors(res.get_errors())\n            return result\n        else:\n            return super().visit_list(schema, value=value, path=path, **kwargs)\n\n    def visit_dict(self, schema: DictSchema, *,\n                   value: Any = Nil, path: Nilable[PathHolder] = Nil,\n                   **kwargs: Any) -> ValidationResult:\n', '                res = type_schema.__accept__(self, value=elem, path=nested_path, **kwargs)\n                result.add_errors(res.get_errors())\n            return result\n\n        if schema.props.elements:\n            return super().visit_list(schema, value=value, path=path, **kwargs)\n\n        # neither `type` nor `elements` declared: any list goes\n        return result\n\n    def visit_dict(self, schema: DictSchema, *,\n                   value: Any = Nil, path: Nilable[PathHolder] = Nil,\n                   **kwargs: Any) -> ValidationResult:\n')]},
 ]
